@@ -128,7 +128,9 @@ func TestC16(t *testing.T) {
 		for _, push := range []*PushCfg{nil, {}, {Endpoint: "http://x"}, {Endpoint: "http://x", Attrs: map[string]string{"x-goog-version": "v1"}}, {Attrs: map[string]string{"x-goog-version": "v2"}}, {Attrs: map[string]string{"foo": "v1"}}, {Endpoint: "http://x", Auth: true}} {
 			add(Rpc{Kind: "modifyPush", Name: n, Push: push})
 		}
-		for _, tg := range []string{"none", "zero", "time:0", "time:-1000000000000", "time:9000000000000000000", "snap:" + N, "snap:", "snap:projects/p/snapshots/unknown", "snap:foo", "snap:" + S} {
+		// (-63082281600000000000 ns before the protocol's epoch is Go's zero time: a timestamp a few nanoseconds
+		// after it is a valid, non-zero instant — whatever the handler rounds it to)
+		for _, tg := range []string{"none", "zero", "time:0", "time:-1000000000000", "time:9000000000000000000", "time:-63082281599999999999", "time:-63082281599999999500", "time:-63082281599999999001", "time:-63082281599000000000", "snap:" + N, "snap:", "snap:projects/p/snapshots/unknown", "snap:foo", "snap:" + S} {
 			add(Rpc{Kind: "seek", Name: n, Target: tg})
 		}
 		for _, sn := range snapNames {
@@ -250,6 +252,26 @@ func TestC16(t *testing.T) {
 		{Kind: "op", Op: &Op{K: "pull", Sub: "src", Max: 2, Via: "handler"}},
 		{Kind: "op", Op: &Op{K: "pull", Sub: "dlyes", Max: 5, Via: "handler"}},
 		{Kind: "op", Op: &Op{K: "pull", Sub: "dlno", Max: 5, Via: "handler"}},
+		// a dead-letter policy whose topic is deleted before the message has used up its attempts: the Pull that
+		// finds the attempts used up has nowhere to forward to
+		{Kind: "createTopic", Name: "projects/p/topics/dgone"},
+		{Kind: "createSub", Sub: &SubReq{Name: "projects/p/subscriptions/src2", Topic: T, DLTopic: pstr("projects/p/topics/dgone"), DLMax: 1}},
+		{Kind: "op", Op: &Op{K: "publish", Topic: "t", Via: "handler", Msgs: []MsgSpec{{N: 910}}}},
+		{Kind: "op", Op: &Op{K: "pull", Sub: "src2", Max: 2, Via: "handler"}},
+		{Kind: "op", Op: &Op{K: "delay", Refs: []Ref{{N: 910, Sub: "src2"}}, D: 0, Via: "handler"}},
+		{Kind: "deleteTopic", Name: "projects/p/topics/dgone"},
+		{Kind: "op", Op: &Op{K: "pull", Sub: "src2", Max: 2, Via: "handler"}},
+		{Kind: "op", Op: &Op{K: "pull", Sub: "src2", Max: 2, Via: "handler"}},
+		// a subscription outlives its topic: a snapshot of it, a seek, a pull
+		{Kind: "createTopic", Name: "projects/p/topics/tgone"},
+		{Kind: "createSub", Sub: &SubReq{Name: "projects/p/subscriptions/orphan", Topic: "projects/p/topics/tgone"}},
+		{Kind: "op", Op: &Op{K: "publish", Topic: "tgone", Via: "handler", Msgs: []MsgSpec{{N: 911}}}},
+		{Kind: "deleteTopic", Name: "projects/p/topics/tgone"},
+		{Kind: "createSnap", Name: "projects/p/snapshots/orphansnap", Name2: "projects/p/subscriptions/orphan"},
+		{Kind: "getSnap", Name: "projects/p/snapshots/orphansnap"},
+		{Kind: "seek", Name: "projects/p/subscriptions/orphan", Target: "snap:projects/p/snapshots/orphansnap"},
+		{Kind: "op", Op: &Op{K: "pull", Sub: "orphan", Max: 2, Via: "handler"}},
+		{Kind: "getSub", Name: "projects/p/subscriptions/orphan"},
 		// requests that are all answered OK leave a deleted topic that still has a message; the maintenance
 		// service that removes deleted topics comes round before the one that removes the message (its
 		// round fails on the foreign key, which is harmless); the server keeps answering afterwards
